@@ -67,21 +67,81 @@ def shutdown():
         del _drivers[:]
 
 
-def ctx():
+# ---- buffer identity within one request -------------------------------------------------------
+# While a request is serialised, every distinct memory span (address, nbytes) is sent once and gets a key;
+# further nodes over the same span only send the key, so C++ sees *shared* buffers where Python shares them
+# (Content::referentially_equal, nbytes).  Replies may refer back to spans of input buffers by key: those
+# become NumPy views of the caller's memory, exactly as the pybind11 module returns views.
+import collections
+import itertools
+
+_pass_counter = itertools.count(1)
+_PASSES = collections.OrderedDict()  # pass id -> _Pass, most recent last
+
+
+class _Pass(object):
+    def __init__(self):
+        self.id = next(_pass_counter)
+        self.keys = {}  # (addr, nbytes) -> key   (valid for one request line)
+        self.arrays = {}  # key -> (weakref to ndarray, addr, nbytes)
+        self.n = 0
+
+    def key_for(self, arr, addr, nbytes):
+        k = self.keys.get((addr, nbytes))
+        if k is not None:
+            return k, False
+        self.n += 1
+        k = "m%d_%d" % (self.id, self.n)
+        self.keys[(addr, nbytes)] = k
+        try:
+            self.arrays[k] = (weakref.ref(arr), addr, nbytes)
+        except TypeError:
+            self.arrays[k] = (lambda a=arr: a, addr, nbytes)
+        if _depth() > 0:
+            # sent from inside a call-back: C++ now co-owns this buffer until the outer request is answered
+            _keepalive.append(arr)
+        return k, True
+
+
+def memo():
     stack = getattr(_state, "ctxs", None)
     if not stack:
         return None
     return stack[-1]
 
 
+ctx = memo
+
+
+def resolve_key(key):
+    """key -> (ndarray, addr, nbytes) of the input span it names, or None"""
+    try:
+        pid = int(key[1:key.index("_")])
+    except ValueError:
+        return None
+    p = _PASSES.get(pid)
+    if p is None:
+        return None
+    ent = p.arrays.get(key)
+    if ent is None:
+        return None
+    arr = ent[0]()
+    if arr is None:
+        return None
+    return arr, ent[1], ent[2]
+
+
 class request_scope(object):
-    """with request_scope() as c: ... serialise, request, deserialise ...  (registries live in c)"""
+    """with request_scope(): serialise, send ONE request, decode its reply."""
 
     def __enter__(self):
         stack = getattr(_state, "ctxs", None)
         if stack is None:
             stack = _state.ctxs = []
-        c = _Ctx()
+        c = _Pass()
+        _PASSES[c.id] = c
+        while len(_PASSES) > 20000:
+            _PASSES.popitem(last=False)
         stack.append(c)
         return c
 
@@ -91,6 +151,15 @@ class request_scope(object):
 
 
 def request(body):
+    try:
+        return _request(body)
+    finally:
+        m = memo()
+        if m is not None:
+            m.keys = {}  # the driver forgets keys at the next request line
+
+
+def _request(body):
     drv = current_driver()
     drv.last_callback_error = None
     if _depth() == 0 and _keepalive:
@@ -112,6 +181,8 @@ def _handle_callback(tree):
     from pyshim import content as nodes
 
     _state.depth = _depth() + 1
+    scope = request_scope()
+    scope.__enter__()
     try:
         kind = tree[1]
         if kind == "gen":
@@ -130,6 +201,7 @@ def _handle_callback(tree):
             return "none"
         raise DriverProtocolError("unknown call-back " + str(kind))
     finally:
+        scope.__exit__()
         _state.depth = _depth() - 1
 
 
